@@ -143,6 +143,7 @@ def run(res, tier, seed, search):
     epsilon_case(res, rng)
     unfilled_case(res, rng)
     check_case(res, rng, "dot", "dense32")          # the normalising metric has its own glue in the constructor: every seed
+    check_case(res, rng, "hamming", "csr")           # so do the sparse metrics that take the feature count (n_samples != n_features)
     start = (seed * nc) % len(COMBOS)
     for i in range(nc):
         metric, kind = COMBOS[(start + i) % len(COMBOS)]
